@@ -8,6 +8,18 @@ var realTerminal = []string{"gmrtd iso7816.NfcSession", "gmrtd iso7816.SecureMes
 
 func RegisterAll() {
 	core.Register(&core.Check{
+		Property: "C08",
+		Level:    "exploration",
+		Rule: "complete reader.ReadDocument against a generated personalisation: access control {BAC only, PACE+BAC, PACE only, PACE-CAM} x curve (11) x suite (4) stratified by run index; password route mrz|mrzi|dg1|can; DG subset and sizes around chunk/length boundaries (incl. files > 32 KiB); chip response policies (size caps, short answers, Le caps, extended length on/off, EOF warnings, SELECT MF forms, access check at SELECT or READ); terminal maxLe 64..65536, SkipPace, SkipImages, AA key type/size, CA arrangement (legacy KAT, AT, key ids, two keys), trusted vs untrusted issuer, issuer profile; " +
+			"distinct_nontrivial counts distinct (access arrangement, issuer profile, password route, CA, AA, read-size class, envelope, outcome) tuples",
+		Engines:        []core.Engine{E2EEngine{}},
+		Assumptions:    []string{"success is required only inside the tolerated read-size envelope (DESIGN.md 6.8); outside it only the safety half is checked", "CA may be absent when AA or PACE-CAM already succeeded (documented pipeline rule)"},
+		RealComponents: []string{"gmrtd reader, pace, bac, chipauth, activeauth, iso7816, passiveauth, cms, document, tlv, mrz, password, cryptoutils (all unmodified)"},
+		SimComponents:  []string{"SimChip (full protocol stack, file system)", "SimPKI issuer (own DER/X.509/CMS builders and signers)", "fault-free link", "seeded terminal randomness via crypto/rand.Reader"},
+		RequiredProbes: []string{"fallback_ladder_used", "shared_secret_leading_zero"},
+		QuickBudget:    80, ThoroughBudget: 1200,
+	})
+	core.Register(&core.Check{
 		Property: "C12",
 		Level:    "exploration",
 		Rule: "byzantine bytes reach the parsers only through the real seams (chip responses through the Transceiver, stored blobs through Verify); monitors: panic, worker death, deterministic step bounds, bytes allocated per call against a linear budget; " +
